@@ -449,7 +449,42 @@ func TestC02(t *testing.T) {
 		Assumptions: []string{"exact kernel (internal/exact)", "Equals of two empty geometries is true (documented special case)"},
 		Gen:         c02Gen,
 		Check:       c02Check,
+		Enumerate:   c02Enumerate,
 	})
+}
+
+// c02Enumerate: wide operands (130 and 260 members in a row) against a small geometry that meets only one of the
+// last two members: the matrix is decided by a late member.
+func c02Enumerate(cx *h.Ctx, yield func(C02Case)) []string {
+	for _, k := range []int{130, 260} {
+		for _, typ := range []string{gm.MultiPoint, gm.MultiLineString, gm.MultiPolygon} {
+			a := gm.G{T: typ}
+			for i := 0; i < k; i++ {
+				x := float64(10 * i)
+				switch typ {
+				case gm.MultiPoint:
+					a.Mem = append(a.Mem, gm.G{T: gm.Point, Co: gm.Fs(x, 0)})
+				case gm.MultiLineString:
+					a.Mem = append(a.Mem, gm.G{T: gm.LineString, Co: gm.Fs(x, 0, x+4, 4)})
+				default:
+					a.Mem = append(a.Mem, gm.G{T: gm.Polygon, Rings: [][]gm.F{gm.Fs(x, 0, x+4, 0, x+4, 4, x, 4, x, 0)}})
+				}
+			}
+			for _, j := range []int{k - 1, k - 2} {
+				x := float64(10 * j)
+				for _, b := range []gm.G{
+					{T: gm.Point, Co: gm.Fs(x, 0)},
+					{T: gm.LineString, Co: gm.Fs(x-2, 2, x+2, -2)},
+					{T: gm.LineString, Co: gm.Fs(x+1, 1, x+3, 3)},
+					{T: gm.Polygon, Rings: [][]gm.F{gm.Fs(x+2, 2, x+6, 2, x+6, 6, x+2, 6, x+2, 2)}},
+				} {
+					yield(C02Case{PairCase: PairCase{A: a, B: b, Family: "wide"}, Matrix: "FF2FF1212", Pattern: "T*F**F***"})
+					yield(C02Case{PairCase: PairCase{A: b, B: a, Family: "wide"}, Matrix: "212101212", Pattern: "T*****FF*"})
+				}
+			}
+		}
+	}
+	return []string{"operands of 130 and 260 members in a row (MultiPoint, MultiLineString, MultiPolygon) against a point / line / polygon meeting one of the last two members, in both argument orders"}
 }
 
 // retraceLines appends to every non-empty LineString its own vertices in
